@@ -142,6 +142,17 @@ def is_json(x):
     return False
 
 
+def finite_json(x):
+    """no NaN / infinity anywhere (they are not JSON values)"""
+    if isinstance(x, float):
+        return x == x and -1.7976931348623157e308 <= x <= 1.7976931348623157e308
+    if isinstance(x, dict):
+        return all(finite_json(val) for val in x.values())
+    if isinstance(x, list):
+        return all(finite_json(val) for val in x)
+    return True
+
+
 def parse_s(schema):
     """parse_element on a private copy (the parser mutates its argument)."""
     return parse_element(jcopy(schema))
@@ -227,6 +238,10 @@ def snapshot(x, _seen=None):
             )
         attrs = []
         for n in sorted(vars(x)):
+            # the element's configuration = its public attributes (+ _properties), exactly the state
+            # Element.__eq__, repr and the serializers read; private bookkeeping is not "the tree"
+            if n.startswith("_") and n != "_properties":
+                continue
             attrs.append((n, snapshot(vars(x)[n], _seen)))
         return ("elem", type(x).__name__, tuple(attrs))
     if isinstance(x, NotPassed):
@@ -248,6 +263,14 @@ def exec_module(text):
     ns = {"__name__": "generated_module"}
     exec(compile(realize(text), "<generated>", "exec"), ns)  # noqa: S102
     return ns
+
+
+def exec_generated(text):
+    """exec of GENERATED code: any failure is the library's (returns None), never the harness's"""
+    try:
+        return exec_module(text)
+    except Exception:  # noqa  (NameError / SyntaxError / TypeError ... in generated text)
+        return None
 
 
 def classes_of(ns):
